@@ -314,6 +314,16 @@ fn add_stats(rep: &mut Report, s: &Stats) {
     rep.add("lsm.snapshot-lists-checked-against-the-model-invariant", s.snapshot_lists_checked);
     rep.add("lsm.real-states-whose-directory-is-exact", s.persist_directory_exact);
     rep.add("lsm.flushes-placed-below-level-0", s.flushes_below_level0);
+    rep.add("lsm.compaction-output-loops-replayed-in-the-model", s.output_loops_checked);
+    rep.add("lsm.grandparent-rule-calls", s.grandparent_rule_calls);
+    rep.add("lsm.move-or-merge-decisions-checked-against-model", s.move_decisions_checked);
+    rep.add("lsm.compactions-whose-grandparent-answers-were-checked-against-the-model", s.grandparent_rules_checked);
+    rep.add("lsm.grandparent-rule-stops", s.grandparent_rule_stops);
+    rep.add("lsm.outputs-closed-by-the-size-rule", s.outputs_closed_by_size);
+    rep.add("lsm.compact-range-level-searches-checked-against-model", s.manual_ranges_checked);
+    rep.add("lsm.manual-compaction-requests", s.manual_requests_checked);
+    rep.add("lsm.manual-compaction-rounds-checked-against-model", s.manual_rounds_checked);
+    rep.add("lsm.manual-compaction-rounds-that-selected-files", s.manual_rounds_selecting);
     rep.add("lsm.closes-during-a-table-compaction", s.closes_during_table_compaction);
     rep.add("lsm.writes-staged-while-a-table-compaction-is-parked", s.flushes_staged_inside_a_compaction);
     let bump = |rep: &mut Report, k: &str, v: u64| {
@@ -323,6 +333,7 @@ fn add_stats(rep: &mut Report, s: &Stats) {
         }
     };
     bump(rep, "lsm.max-l0-files", s.max_l0 as u64);
+    bump(rep, "lsm.max-rounds-of-one-manual-request", s.manual_max_rounds_of_a_request);
     bump(rep, "lsm.deepest-level", s.deepest_level as u64);
     bump(rep, "lsm.max-files-in-a-level>=1", s.max_files_in_level as u64);
 }
